@@ -664,9 +664,29 @@ Definition boundaries_ok (f : bytes) (d : vdoc) : bool :=
   prev_is vws f (d_xrefpos d) &&
   match find_tail f with Some (tpos, _) => prev_is veol f tpos | None => false end.
 
+(* 7.3.8.2, Table 5: /Filter is a name or an array of names; /DecodeParms belongs to it - for a
+   single name a dictionary, for an array an array with exactly one entry, dictionary or null, per
+   filter; it may be absent (all parameters default), but not stand alone *)
+Definition E_FILTERS := 35.
+Definition is_name (o : obj) : bool := match o with OName _ => true | _ => false end.
+Definition parm_entry_ok (o : obj) : bool := match o with ODict _ | ONull => true | _ => false end.
+Definition filters_ok (d : dict) : bool :=
+  match dget n_Filter d, dget n_DecodeParms d with
+  | None, None => true
+  | Some (OName _), None => true
+  | Some (OName _), Some (ODict _) => true
+  | Some (OArr names), None => forallb is_name names
+  | Some (OArr names), Some (OArr pp) =>
+    forallb is_name names && Nat.eqb (length pp) (length names) && forallb parm_entry_ok pp
+  | _, _ => false
+  end.
+Definition filters_doc_ok (d : vdoc) : bool :=
+  forallb (fun o => match o_body o with BStream sd _ _ => filters_ok sd | BObj _ => true end) (d_objects d).
+
 Definition validate_strict (orc : list (bytes * bytes)) (f : bytes) : vres vdoc :=
   do d <- validate orc f;
   do _ <- guard E_BOUNDARY (boundaries_ok f d);
+  do _ <- guard E_FILTERS (filters_doc_ok d);
   VOk d.
 
 (* what the driver prints for a stream: its decoded data *)
